@@ -283,7 +283,7 @@ def check_strict(spec, a, region, sig, case, acc, exact_fit_is_exact=False):
                 continue
             acc.evaluations += 1
             rr = outcome(lambda: mk(r_))
-            ssig = dict(sig, autoscale_radius=how != 'keyword_true', given=how, radius=rname)
+            ssig = dict(sig, autoscale_radius=(how == 'keyword_true'), given=how, radius=rname)
             scase = dict(case, strict=[how, rname])
             if how == 'keyword_true' or region == 'fits' or (region == 'exact_fit' and exact_fit_is_exact):
                 if rr[0] != 'ok':
